@@ -163,6 +163,9 @@ fn directed(t: Tier) -> Vec<(u32, Vec<Op>)> {
             vec![big(40_000, 1), Op::Reopen, big(40_000, 200_000), Op::Reopen, big(20_000, 400_000), Op::Clear(98_300, 98_310), Op::Reopen, Op::Get(98_304), Op::Get(99_999)],
         ));
     }
+    // clear with an astronomically large end: blocks at or beyond the length do not exist, so
+    // this is the same as clearing up to the length and must terminate
+    v.push((64, vec![Op::Append(1, 4), Op::Append(2, 4), Op::Append(3, 4), Op::Clear(1, 1 << 40), Op::Reopen, Op::Append(4, 4), Op::Clear(0, u64::MAX), Op::Reopen]));
     // clear with end beyond the length by up to three pages
     for extra in [1u64, 32_768, 65_536, 98_303] {
         v.push((64, vec![Op::Append(1, 4), Op::Append(2, 4), Op::Append(3, 4), Op::Clear(1, 3 + extra), Op::Reopen, Op::Append(4, 4), Op::Reopen]));
